@@ -55,7 +55,6 @@ package rollout
 //@ track github.com/openkruise/rollouts/pkg/trafficrouting.(*Manager).RestoreGateway as restoreGateway
 //@ track github.com/openkruise/rollouts/pkg/trafficrouting.(*Manager).RemoveCanaryService as removeCanarySvc
 //@ track runBatchRelease as runBR
-//@ track github.com/openkruise/rollouts/api/v1beta1.IsRealPartition as realPart
 //@ track removeBatchRelease as removeBR
 //@ track finalizingBatchRelease as finalizeBR
 
@@ -128,4 +127,4 @@ package rollout
 //@ ensures {C04} stable_unpinned_before_full_replacement: #upgrade > 0 && st0(c) == S_Init() && old(stepHasTraffic(c)) && #restoreStable > 0 ==> !#restoreStable.ret0 && #restoreStable.ret1 == nil
 // the batch that BatchRelease will roll is computed with round-up (control.CalculateBatchReplicas); a step whose rounded-up
 // replica count covers the whole workload replaces every stable pod, so the stable Service must be un-pinned first
-//@ ensures {C04} full_replacement_unpins_first: #upgrade > 0 && st0(c) == S_Init() && old(stepHasTraffic(c)) && old(scaled(steps(c)[idx0(c) - 1].Replicas.Type, steps(c)[idx0(c) - 1].Replicas.IntVal, steps(c)[idx0(c) - 1].Replicas.StrVal, c.Workload.Replicas, true)) >= old(c.Workload.Replicas) && old(scaledOk(steps(c)[idx0(c) - 1].Replicas.Type, steps(c)[idx0(c) - 1].Replicas.StrVal)) && #realPart >= 1 && #realPart.ret0 ==> #restoreStable == 1 && !#restoreStable.ret0 && #restoreStable.ret1 == nil
+//@ ensures {C04} full_replacement_unpins_first: #upgrade > 0 && st0(c) == S_Init() && old(stepHasTraffic(c)) && old(scaled(steps(c)[idx0(c) - 1].Replicas.Type, steps(c)[idx0(c) - 1].Replicas.IntVal, steps(c)[idx0(c) - 1].Replicas.StrVal, c.Workload.Replicas, true)) >= old(c.Workload.Replicas) && old(scaledOk(steps(c)[idx0(c) - 1].Replicas.Type, steps(c)[idx0(c) - 1].Replicas.StrVal)) && old(realPartitionSpec(c.Rollout)) ==> #restoreStable == 1 && !#restoreStable.ret0 && #restoreStable.ret1 == nil
